@@ -231,7 +231,11 @@ class FrameTrack:
         if mapping is None:
             return False
         m = mapping.rstrip('!^')
-        return m not in ('@drop', '@nondet') and re.search(r'[A-Za-z_]\w*\s*\(', m if ('{' in m or '(' in m) else m + '(') is not None
+        if m in ('@drop', '@nondet'):
+            return False
+        called = re.findall(r'([A-Za-z_]\w*)\s*\(', m if ('{' in m or '(' in m) else m + '(')
+        # stubs named nv_pure* / nv_elem* only compute a value from their (evaluated) arguments
+        return any(not re.match(r'^nv_(pure|elem)\w*$', c) for c in called)
 
     def mapped_call(self, P, n):
         return self.accessor(P, n) or self.mapping_of(P, n) is not None
